@@ -137,6 +137,9 @@ class Rig:
         self.interfered = False
 
 
+_FOREIGN_DONE = []
+
+
 def run_case(ctx, rig, keys, plans, picks, fail, eager_first):
     import jax
 
@@ -188,6 +191,24 @@ def run_case(ctx, rig, keys, plans, picks, fail, eager_first):
         VmapWrapper(b.env).reset(jax.random.split(k_i, 2))
         JumanjiToDMEnvWrapper(b.env, key=k_i).reset()
         ctx.count("interference_rounds")
+        # once per worker process: every *other* environment class is constructed with its default configuration
+        # (Sokoban needs its dataset and is left out) between the stored calls and their re-issue - building an
+        # environment must not change what another one computes (process-global JAX configuration, module state)
+        if not _FOREIGN_DONE:
+            _FOREIGN_DONE.append(True)
+            import inspect
+
+            import jumanji.environments as _E
+            from jumanji.env import Environment as _Env
+
+            for n_ in sorted(dir(_E)):
+                c_ = getattr(_E, n_)
+                if inspect.isclass(c_) and issubclass(c_, _Env) and c_ is not _Env and n_ != "Sokoban":
+                    try:
+                        c_()
+                        ctx.count("foreign_constructions")
+                    except Exception:  # a constructor that fails here is not this property's subject
+                        ctx.count("foreign_constructions_failed")
         # the environment object as a *static* jit argument (the library's own rollout helpers in jumanji/testing do
         # this): two live environments of one class that differ in their configuration must not share a compiled
         # program - each call must equal that environment's own reset
